@@ -87,7 +87,8 @@ Inductive event :=
 | EMisb (peer serial : N)                   (* Peer.Misbehaviour(ErrSelectorMismatch) *)
 | ETooMany (peer serial : N)                (* NotifyRequestReceived returned ErrTooManyChunks *)
 | ECreated (inc peer sid start stop creator : N)   (* ghost: a session incarnation was created *)
-| EUnreg (peer : N).                        (* ghost: the reader dropped the peer's sessions *)
+| EUnreg (peer : N)                         (* ghost: the reader dropped the peer's sessions *)
+| EEnq (r : resp).                          (* ghost: the reader handed r to its sender worker *)
 
 Inductive op :=
 | ORequest (rq : request) | OUnregister (p : N)
@@ -209,11 +210,14 @@ Definition reader_chunk (db : list item) (st : state) (rq : request) (i : N) (ss
          (st_serial st)
   else set_reader st RIdle.
 
-(* reader at the second wait + Enqueue *)
+(* reader at the second wait + Enqueue.  s.senders[session.senderI] with an index out of range
+   would panic and kill the reader: modelled as "not enabled" (cannot happen when
+   SenderThreads >= 1). *)
 Definition reader_send (cfg : config) (st : state) (rq : request) (i : N) (ss : sess) (r : resp)
   : option state :=
   if (st_pending st <? c_limit cfg) &&
-     (N.of_nat (length (nth (s_sender ss) (st_senders st) [])) <=? c_maxtasks cfg) then
+     (N.of_nat (length (nth (s_sender ss) (st_senders st) [])) <=? c_maxtasks cfg) &&
+     (Nat.ltb (s_sender ss) (length (st_senders st))) then
     Some (mkSt (st_sessions st) (st_peersess st) (st_counter st) (st_chreq st) (st_chunreg st)
                (RChunk rq (i + 1) ss)
                (list_upd (s_sender ss) (fun q => q ++ [r]) (st_senders st))
@@ -270,7 +274,7 @@ Definition step (v : variant) (cfg : config) (db : list item) (st : state) (o : 
       | RTop rq => if st_pending st <? c_limit cfg then Some (reader_top v cfg st rq) else None
       | RChunk rq i ss => Some (reader_chunk db st rq i ss, [])
       | RSend rq i ss r =>
-          match reader_send cfg st rq i ss r with Some st' => Some (st', []) | None => None end
+          match reader_send cfg st rq i ss r with Some st' => Some (st', [EEnq r]) | None => None end
       end
   | ODeliver i =>
       match nth i (st_senders st) [] with
